@@ -88,27 +88,36 @@ Default == [enabled |-> TRUE, all |-> FALSE, exposed |-> TRUE, safe |-> TRUE, pu
 Widened(cfg) == [cfg EXCEPT !.all = TRUE, !.exposed = FALSE, !.enabled = TRUE]
 \* "public" connections are all opened with one and the same configuration mapping object of the application;
 \* "classic_shared" is a classic-mode connection opened with that very object
-CfgOf(kind) == IF kind = "classic" THEN Widened(Default)
-               ELSE IF kind = "classic_shared" THEN Widened([Default EXCEPT !.public = TRUE])
-               ELSE IF kind = "public" THEN [Default EXCEPT !.public = TRUE] ELSE Default
+\* `a`: whether the application's mapping also said allow_all_attrs at the moment the connection was opened from it
+CfgOf(kind, a) == IF kind = "classic" THEN Widened(Default)
+                  ELSE IF kind = "classic_shared" THEN Widened([Default EXCEPT !.public = TRUE])
+                  ELSE IF kind = "public" THEN [Default EXCEPT !.public = TRUE, !.all = a] ELSE Default
 
 VARIABLES conns,      \* function id -> [kind, cfg] of the open connections
           defaults,   \* the process-wide default configuration
-          opened
-hvars == <<conns, defaults, opened>>
-HInit == conns = <<>> /\ defaults = Default /\ opened = 0
+          opened,
+          appall,     \* the application's own mapping: does it (now) also say allow_all_attrs?
+          edits
+hvars == <<conns, defaults, opened, appall, edits>>
+HInit == conns = <<>> /\ defaults = Default /\ opened = 0 /\ appall = FALSE /\ edits = 0
 Ids == 1..MaxConns
 Open(k) == /\ opened < MaxConns
            /\ opened' = opened + 1
-           /\ conns' = Append(conns, [kind |-> k, cfg |-> CfgOf(k), open |-> TRUE])
-           /\ UNCHANGED defaults
+           /\ conns' = Append(conns, [kind |-> k, a |-> appall, cfg |-> CfgOf(k, appall), open |-> TRUE])
+           /\ UNCHANGED <<defaults, appall, edits>>
 Close(i) == /\ i \in 1..Len(conns) /\ conns[i].open
             /\ conns' = [conns EXCEPT ![i].open = FALSE]
-            /\ UNCHANGED <<defaults, opened>>
-HNext == (\E k \in Kinds : Open(k)) \/ (\E i \in Ids : Close(i)) \/ (opened = MaxConns /\ UNCHANGED hvars)
+            /\ UNCHANGED <<defaults, opened, appall, edits>>
+\* the application edits its own mapping (it is the application's object): connections opened from it before keep what they
+\* were opened with, connections opened afterwards get the new content
+Edit == /\ edits < 2 /\ opened < MaxConns
+        /\ edits' = edits + 1
+        /\ appall' = ~appall
+        /\ UNCHANGED <<conns, defaults, opened>>
+HNext == (\E k \in Kinds : Open(k)) \/ (\E i \in Ids : Close(i)) \/ Edit \/ (opened = MaxConns /\ UNCHANGED hvars)
 HSpec == HInit /\ [][HNext]_hvars
 
 \* one connection's configuration never changes what another one allows
 Isolation == /\ defaults = Default
-             /\ \A i \in 1..Len(conns) : conns[i].cfg = CfgOf(conns[i].kind)
+             /\ \A i \in 1..Len(conns) : conns[i].cfg = CfgOf(conns[i].kind, conns[i].a)
 =======================================================================================
